@@ -472,6 +472,10 @@ func (rn *runner) runBehaviour(b *behaviour, robj replayObj) (nViol int) {
 			viol("panic-in-"+s.Act, fmt.Sprintf("panic: %v", pnc), i)
 			return
 		}
+		if err == errNoRank {
+			rn.rep.AddExtra("signed_behaviours_abandoned_no_rank", 1)
+			return
+		}
 		if err != nil {
 			viol("error-in-"+s.Act, fmt.Sprintf("honest input refused: %v", err), i)
 			return
@@ -569,7 +573,7 @@ func (rn *runner) signedAdd(r *replica, s step, realId map[int]string, raws map[
 	}
 	r.tree.Lock()
 	defer r.tree.Unlock()
-	for n := 0; n < 100000; n++ {
+	for n := 0; n < 20000; n++ {
 		content := objecttree.SignableChangeContent{
 			Data: []byte(fmt.Sprintf("verif-%d-%d", s.Id, n)), Key: e.keys.SignKey, IsSnapshot: s.IsSnap,
 			ShouldBeEncrypted: false, Timestamp: 1700000000 + int64(s.Id), DataType: "verif",
@@ -592,8 +596,12 @@ func (rn *runner) signedAdd(r *replica, s step, realId map[int]string, raws map[
 		raws[s.Id] = &treechangeproto.RawTreeChangeWithId{RawChange: append([]byte(nil), res.Added[0].RawChange...), Id: raw.Id}
 		return res, nil
 	}
-	return objecttree.AddResult{}, fmt.Errorf("no content id with the wanted rank found")
+	return objecttree.AddResult{}, errNoRank
 }
+
+// errNoRank: the content ids created so far leave no reachable gap for the rank the model chose
+// (two mined ids can be arbitrarily close). A limit of the harness, never a verdict.
+var errNoRank = fmt.Errorf("no content id with the wanted rank found")
 
 func (rn *runner) checkSignedChange(r *replica, s step, realId map[int]string) string {
 	st, err := r.st.Get(rn.e.ctx, realId[s.Id])
